@@ -40,7 +40,21 @@ enum Mix {
 
 #[derive(Clone, Debug, Serialize, Deserialize)]
 enum Cfg {
-    PubSub { mix: Mix, svc: SvcType, size: usize, align: usize, slice: bool, buffer: usize, borrow: usize, loans: usize, overflow: bool, prefill: u8 },
+    PubSub {
+        mix: Mix,
+        svc: SvcType,
+        size: usize,
+        align: usize,
+        slice: bool,
+        buffer: usize,
+        borrow: usize,
+        loans: usize,
+        overflow: bool,
+        prefill: u8,
+        /// backpressure handler of the publisher (see PsCfg::handler), 0 = none
+        #[serde(default)]
+        handler: u8,
+    },
     Event { mix: Mix, svc: SvcType, max_id: usize, lifecycle_events: bool },
     ReqRes { mix: Mix, svc: SvcType, size: usize, align: usize, slice: bool, max_active: usize, loans: usize, faf: bool, stage: u8 },
     ErrorEnum { name: String },
@@ -134,7 +148,7 @@ fn setup_fail(what: &str, o: Obs) -> Fail {
 fn build_world(cfg: &Cfg, c_a: bool, c_b: bool, prefix: &str, name: &str) -> Result<World, Fail> {
     let who = |c: bool| if c { "C" } else { "Rust" };
     match cfg {
-        Cfg::PubSub { svc, size, align, slice, buffer, borrow, loans, overflow, .. } => {
+        Cfg::PubSub { svc, size, align, slice, buffer, borrow, loans, overflow, handler, .. } => {
             let typed = rside::typed_name(*size, *align);
             let c = PsCfg {
                 svc: *svc,
@@ -149,6 +163,7 @@ fn build_world(cfg: &Cfg, c_a: bool, c_b: bool, prefix: &str, name: &str) -> Res
                 max_slice_len: 2,
                 history: 0,
                 safe_overflow: *overflow,
+                handler: *handler,
             };
             let mut a = mk_pub(c_a, prefix, name, &c).map_err(|o| setup_fail(&format!("open pub-sub service ({} publisher side)", who(c_a)), o))?;
             let mut b = mk_sub(c_b, prefix, name, &c).map_err(|o| setup_fail(&format!("open pub-sub service ({} subscriber side)", who(c_b)), o))?;
@@ -893,7 +908,7 @@ fn configs(tier: Tier) -> Vec<(Cfg, Plan)> {
     let odd: [(usize, usize); 5] = [(12, 8), (1, 8), (8, 16), (1, 16), (12, 16)];
     let mut ps = |mix: Mix, svc: SvcType, sa: (usize, usize), slice: bool, buffer: usize, borrow: usize, loans: usize, overflow: bool, prefill: u8, level: u8| {
         let (d, split) = dsp(svc, level);
-        v.push((Cfg::PubSub { mix, svc, size: sa.0, align: sa.1, slice, buffer, borrow, loans, overflow, prefill }, plan(d, split)));
+        v.push((Cfg::PubSub { mix, svc, size: sa.0, align: sa.1, slice, buffer, borrow, loans, overflow, prefill, handler: 0 }, plan(d, split)));
     };
     if quick {
         ps(Mix::CC, SvcType::Ipc, (8, 8), false, 2, 1, 1, true, 0, 1);
@@ -907,6 +922,8 @@ fn configs(tier: Tier) -> Vec<(Cfg, Plan)> {
         ps(Mix::RC, SvcType::Local, (8, 1), false, 2, 1, 1, false, 2, 1);
         ps(Mix::RC, SvcType::Local, (8, 16), false, 1, 1, 2, true, 0, 0);
     } else {
+        // (filled in below the closure: handler configurations are pushed directly)
+
         for (i, sa) in typed.iter().enumerate() {
             for slice in [false, true] {
                 let mix = [Mix::CC, Mix::CR, Mix::RC][(i + slice as usize) % 3];
@@ -929,6 +946,28 @@ fn configs(tier: Tier) -> Vec<(Cfg, Plan)> {
         }
         ps(Mix::CC, SvcType::Local, (12, 4), false, 1, 1, 1, true, 2, 2);
         ps(Mix::CC, SvcType::Ipc, (12, 4), true, 2, 1, 2, false, 0, 2);
+    }
+
+    // ---- (a) publish-subscribe with a backpressure handler on the publisher: no safe overflow,
+    // buffer 1, so that the second send after the subscriber connected meets a full buffer
+    {
+        let handler_cfgs: Vec<(Mix, SvcType, (usize, usize), bool, u8)> = if quick {
+            vec![(Mix::CC, SvcType::Local, (8, 8), false, 2), (Mix::CR, SvcType::Local, (12, 4), true, 3), (Mix::CC, SvcType::Local, (8, 8), false, 1)]
+        } else {
+            let mut v = Vec::new();
+            for mix in [Mix::CC, Mix::CR] {
+                for handler in 1..=4u8 {
+                    v.push((mix, SvcType::Local, if handler % 2 == 0 { (8, 8) } else { (12, 4) }, handler >= 3, handler));
+                }
+            }
+            v.push((Mix::CC, SvcType::Ipc, (8, 8), false, 2));
+            v.push((Mix::CR, SvcType::Ipc, (16, 16), true, 3));
+            v
+        };
+        for (mix, svc, sa, slice, handler) in handler_cfgs {
+            let (d, split) = dsp(svc, if quick { 0 } else { 1 });
+            v.push((Cfg::PubSub { mix, svc, size: sa.0, align: sa.1, slice, buffer: 1, borrow: 1, loans: 1, overflow: false, prefill: 0, handler }, plan(d.max(4), split)));
+        }
     }
 
     // ---- (a) event
